@@ -355,6 +355,85 @@ class Engine:
             self.cache[key] = an
         return self.cache[key]
 
+    ITER_ADAPTORS = r"^std::iter::Iterator::(find_map|for_each|map|filter|filter_map|try_for_each|any|all|position|fold|try_fold|find|inspect|take_while|skip_while|flat_map|scan)$|^<.* as std::iter::Iterator>::(find_map|for_each|try_for_each|any|all|position|fold|try_fold|find)$"
+
+    def closure_facts(self, cpath, entries):
+        """entry facts for a closure body from the abstract state of the body that creates it, at the call it is handed to.
+        By-copy / by-shared-reference captures keep the value they have there; `bool::then(c, closure)` additionally runs the closure
+        only when c holds.  A `&mut` capture gets no interval (it changes between calls) but is recorded under "counters" when the
+        closure goes to an iterator adaptor over an in-memory sequence (it is then called at most isize::MAX times).
+        Returns None when the creation site / the consuming call is not understood."""
+        cb = self.prog.body(cpath)
+        if cb is None or cb.kind != "Closure":
+            return None
+        parent = None
+        for b in self.prog.bodies:
+            if b.path != cpath and (cb.j.get("closure_parent") == b.path or (cb.closure_root and (b.path == cb.closure_root or b.closure_root == cb.closure_root))):
+                for i, si, s in b.assigns():
+                    rv = s["rv"]
+                    if rv["k"] == "agg" and rv.get("ak") == "closure" and rv.get("def") == cpath:
+                        parent = (b, i, s)
+        if parent is None:
+            return None
+        pb, cbb, cs = parent
+        cl = cs["place"]["l"]
+        if cs["place"]["p"]:
+            return None
+        users = [(bb, t) for bb, t in pb.calls() if any(a.get("k") in ("copy", "move") and a["place"]["l"] == cl and not a["place"]["p"] for a in t["args"])]
+        if len(users) != 1:
+            return None
+        ubb, ut = users[0]
+        an = self.analyze(pb.path, entries.get(pb.path))
+        st = an.call_args.get(ubb)
+        if st is None:
+            return None
+        st = st.copy()
+        nm = callee_name(ut) or ""
+        if re.search(r"core::bool::<impl bool>::then$", nm) and ut["args"][0].get("k") in ("copy", "move"):
+            rv = an.eval_op(st, ut["args"][0], "cfb")
+            if rv.cond is not None:
+                an.refine_cond(st, rv.cond, True)
+                if st.dead:
+                    return None
+        env_ref = cb.local_ty(1).startswith("&")
+        base = "(*_1)" if env_ref else "_1"
+        fields, diffs, counters = {}, [], []
+        terms = {}
+        is_iter = bool(re.search(self.ITER_ADAPTORS, nm)) and bool(ut.get("arg_tys")) and bool(re.search(
+            r"std::slice::(Iter|IterMut|Chunks|ChunksExact|Windows)<|std::vec::IntoIter<|std::str::(Chars|Bytes|CharIndices)<|std::ops::Range<usize>", ut["arg_tys"][0]))
+        for i, f in enumerate(cs["rv"]["fields"]):
+            v = an.eval_op(st, f, "cfc%d" % i)
+            key = "%s.%d" % (base, i)
+            if v.ref_to is not None:
+                tv = st.vals.get(v.ref_to)
+                if v.is_mut:
+                    if is_iter and tv is not None:
+                        it = st.itv(tv)
+                        if it[0] >= 0 and it[1] <= (1 << 62):
+                            counters.append("(*%s)" % key)
+                    continue
+                if tv is not None and (tv.const is not None or tv.sym is not None):
+                    fields["(*%s)" % key] = st.itv(tv)
+                    terms["(*%s)" % key] = st.term(tv)
+            elif v.const is not None or v.sym is not None:
+                fields[key] = st.itv(v)
+                terms[key] = st.term(v)
+        ks = sorted(terms)
+        for a in ks:
+            for b_ in ks:
+                if a != b_ and terms[a] is not None and terms[b_] is not None:
+                    if st.le(terms[a], terms[b_], True):
+                        diffs.append((a, b_, -1))
+                    elif st.le(terms[a], terms[b_]):
+                        diffs.append((a, b_, 0))
+        fields = {k: v for k, v in fields.items() if v != (-INF, INF)}
+        if not fields and not counters:
+            return None
+        e = {"fields": fields, "field_diffs": diffs}
+        if counters:
+            e["counters"] = counters
+        return e
+
     def caller_facts(self, path, callers, entries):
         """join of the abstract arguments over all direct call sites of `path` inside `callers`.
         Returns entry dict or None if some call site is not a direct call (fn item mentioned as a value)."""
